@@ -3,9 +3,9 @@ CONSTANTS
   NoKey = "-"
   DocDels <- MCDocDels
   Authors = {"a", "b", "c", "s"}
-  NewDocs = {3}
+  NewDocs = {2, 3}
   InPlace = FALSE
-  MaxOps = 3
+  MaxOps = 4
   MaxActs = 1
   MaxForks = 1
 INIT Init
